@@ -935,8 +935,9 @@ type semOutcome struct {
 	Got          map[int][]uint64
 	Asm          string
 	Log          string
-	Compiled     *compiled // compile-deadlock-in-every-schedule: the proof data
-	Artefact     string    // artefacts-differ-between-two-compilations: which kind
+	Extra        *semOutcome // a second failure of the same program (channel family)
+	Compiled     *compiled   // compile-deadlock-in-every-schedule: the proof data
+	Artefact     string      // artefacts-differ-between-two-compilations: which kind
 	ExpectedMP   map[int][]uint64
 	GotMP        map[int][]uint64
 	HDLNote      string
@@ -1297,9 +1298,13 @@ func part2(run *vlib.Run, bt *built) bool {
 				ps := progs[b.lo:b.hi]
 				tc := time.Now()
 				rs, err := compileBatch(bt, ps, b.rsize, b.mpm, fmt.Sprint(b.lo), "")
-				var rs2 []compiled
-				if err == nil && b.mpm { // channel family: a second, independent compilation
-					rs2, err = compileBatch(bt, ps, b.rsize, b.mpm, fmt.Sprint(b.lo), "-again")
+				rsAll := [][]compiled{rs}
+				if b.mpm { // channel family: further independent compilations
+					for k := 1; k < chanCompilations && err == nil; k++ {
+						var rk []compiled
+						rk, err = compileBatch(bt, ps, b.rsize, b.mpm, fmt.Sprint(b.lo), chanDirSuffix(k))
+						rsAll = append(rsAll, rk)
+					}
 				}
 				tCompile.add(tc)
 				if err != nil {
@@ -1318,8 +1323,14 @@ func part2(run *vlib.Run, bt *built) bool {
 				for i, p := range ps {
 					var oc *semOutcome
 					if b.mpm {
-						oc = judgeChannel(xw, p, rs[i], rs2[i])
-						os.RemoveAll(p.dir + "-again")
+						var cs []compiled
+						for _, rk := range rsAll {
+							cs = append(cs, rk[i])
+						}
+						oc = judgeChannel(xw, p, cs)
+						for k := 1; k < chanCompilations; k++ {
+							os.RemoveAll(p.dir + chanDirSuffix(k))
+						}
 					} else {
 						oc = judge(xw, p, rs[i])
 					}
@@ -1359,6 +1370,10 @@ func part2(run *vlib.Run, bt *built) bool {
 			fatalHarness("part 2 cannot handle a program it generated (%s: %s):\n%s", oc.Class, oc.Detail, oc.Prog.Source)
 		default:
 			failing = append(failing, oc)
+			for x := oc.Extra; x != nil; x = x.Extra {
+				counts[x.Class]++
+				failing = append(failing, x)
+			}
 		}
 		if oc.ISADisagrees {
 			counts["note:isa-model-disagrees-but-hardware-matches-source"]++
@@ -1385,7 +1400,7 @@ func part2(run *vlib.Run, bt *built) bool {
 			}
 		}
 	}
-	run.Set("part2_channel_family_oracles", fmt.Sprintf("(1) termination: every program is compiled under the gosched scheduler; a program all of whose explored compiler schedules (preemption bound 2, cap 600 runs) end with an empty enabled set is a proven hang and is re-run in a fresh process before it is reported; (2) two independent compilations (two processes) must emit identical assembly files and bondmachine JSON; (3) hardware execution is NOT available for this family: %d of %d generated multi-processor file sets elaborate under vsim (first diagnostic: %s; generator defects of chw/wrd/wwr and of the channel shared object, property C18); instead the emitted assembly of all processors is run on a multi-processor ISA model (rendezvous channels wired by Shared_links of the saved bondmachine, output ids from the requirements dump) and compared with a small-step go/ast reference evaluator with Go channel semantics, both run to quiescence (a BondMachine processor does not stop when main returns)", chElab, chN, chNote))
+	run.Set("part2_channel_family_oracles", fmt.Sprintf("(1) termination: every program is compiled under the gosched scheduler; a program all of whose explored compiler schedules (preemption bound 2, cap 600 runs) end with an empty enabled set is a proven hang and is re-run in a fresh process before it is reported; (2) %d independent compilations (separate processes, same compiler schedule) must emit identical assembly files and bondmachine JSON; (3) hardware execution is NOT available for this family: %d of %d generated multi-processor file sets elaborate under vsim (first diagnostic: %s; generator defects of chw/wrd/wwr and of the channel shared object, property C18); instead the emitted assembly of all processors is run on a multi-processor ISA model (rendezvous channels wired by Shared_links of the saved bondmachine, output ids from the requirements dump) and compared with a small-step go/ast reference evaluator with Go channel semantics, both run to quiescence (a BondMachine processor does not stop when main returns); every distinct compilation variant is checked", chanCompilations, chElab, chN, chNote))
 	run.Set("part2_channel_family", "uint8 (thorough: also uint16): {receive in a goroutine, in main, in an ordinary function} x {send in main, in an ordinary function, in a goroutine} (both ends in main excluded) x {no alias, c2 = c used by the sender, c2 = c used by the receiver}; pipeline main -> relay goroutine -> worker (2 channels, 2 goroutines); two independent channel/worker pairs; two messages on one channel; goroutine -> goroutine -> main; channel declared in a nested block; ordinary functions on two channels; make(chan T) (refused by the compiler: expected); thorough: the first four extras also with an aliased sender")
 	run.Set("part2_storage_reuse_family", "1..2 outer memory variables; sibling constructs declaring k memory locals each (every local assigned a distinct constant and written to the output inside its block), outer variables written after them; two siblings, all (k1,k2) in 0..3: bare/bare, if reg_t == 1 {k1} else {k2}, bare block then k2 top level declarations (thorough: also if reg_t == 0, uint16); thorough: three siblings, all (k1,k2,k3) in 0..3: bare/bare/bare, if-else + bare, bare + if-else, bare/bare + declarations, uint8 and uint16")
 	run.Set("part2_shadowing_family", "block scoping: outer variable V (a = memory, reg_b = register), block kinds {bare, if body, else body, for body} x {redeclares V, does not} x PRE {V = 5 (thorough: also none)} x INNER = all sequences of 1..2 statements of {V = 1, V = V + 2, V++, IOWrite(o0, V)} x POST {IOWrite; V++ IOWrite (thorough: also V = V + 2 IOWrite; IOWrite V = 1 IOWrite)} (quick: the non-redeclaring control only for the bare block); two levels: block {[var V] s1 {[var V] s2 IOWrite} IOWrite} IOWrite with s1 in {V = 1, V++}, s2 in {V = 3, V = V + 2, V++}, all four redeclaration combinations (quick: outer block bare; thorough: all four kinds); 16 bit: bare and for body, redeclared, one inner statement")
@@ -1661,8 +1676,13 @@ func reportSemFailures(run *vlib.Run, bt *built, failing []*semOutcome) {
 			gclass, prefix = oc.Class+"|"+shape, "C12|termination|compiler-hangs|"+shape+"|"
 			descr = "bondgo never terminates on these programs: every explored schedule of the compiler ends with an empty enabled set (proven blocked-forever state)"
 		case "artefacts-differ-between-two-compilations":
-			gclass, prefix = oc.Class+"|"+oc.Artefact, "C12|compiler|output-differs-between-identical-compilations|"+oc.Artefact+"|"
-			descr = "two compilations of the same program emit different artefacts"
+			add("C12|compiler|output-differs-between-identical-compilations|"+oc.Artefact, "independent compilations of the same program (same compiler schedule) emit different artefacts", oc)
+			continue
+		case "codegen-mismatch":
+			if isChannelProgram(oc.Prog.Source) && !has("channel-to-channel-assignment") && strings.Count(oc.Prog.Source[strings.Index(oc.Prog.Source, "func main()"):], " chan ") >= 2 {
+				add("C12|codegen|mismatch|processor-on-two-channels-wired-in-map-order", "a processor connected to two channels gets them wired to its local channel indexes in map iteration order: the emitted assembly talks to the wrong channel in some compilations", oc)
+				continue
+			}
 		}
 		placed := false
 		for _, g := range generic[gclass] {
@@ -1774,11 +1794,18 @@ func semOne(bt *built, ro semReplay) {
 	defer xw.stop()
 	var oc *semOutcome
 	if p.Mpm {
-		rs2, err := compileBatch(bt, []*semProg{p}, p.Rsize, p.Mpm, "replay", "-again")
-		if err != nil {
-			fatalHarness("%v", err)
+		cs := []compiled{rs[0]}
+		for k := 1; k < chanCompilations; k++ {
+			rk, err := compileBatch(bt, []*semProg{p}, p.Rsize, p.Mpm, "replay", chanDirSuffix(k))
+			if err != nil {
+				fatalHarness("%v", err)
+			}
+			cs = append(cs, rk[0])
 		}
-		oc = judgeChannel(xw, p, rs[0], rs2[0])
+		oc = judgeChannel(xw, p, cs)
+		for x := oc.Extra; x != nil; x = x.Extra {
+			fmt.Printf("  also: class=%s %s\n", x.Class, x.Detail)
+		}
 	} else {
 		oc = judge(xw, p, rs[0])
 	}
